@@ -986,24 +986,42 @@ maximum = _pairwise(_max2, "maximum")
 minimum = _pairwise(_min2, "minimum")
 
 
+# 'generic': symbolic values that are not identically equal are not close (generic point of the input space)
+# 'close'  : symbolic values that are not identically equal *are* within the tolerance (the inputs the generic world leaves out: close but
+#            unequal).  A property that has to hold for all inputs has to hold in both worlds.
+CLOSE_WORLD = ["generic"]
+
+
+def _close1(x, y, rtol, atol):
+    x, y = P(x), P(y)
+    if x == y:
+        return True
+    d = x - y
+    if d.is_const() and y.is_const():
+        return abs(d.const_value()) <= Fraction(atol) + Fraction(rtol) * abs(y.const_value())
+    return CLOSE_WORLD[0] == "close"
+
+
 def isclose(a, b, rtol=None, atol=None, equal_nan=False):
-    """generic-point semantics: identically equal -> True, otherwise False"""
+    """identically equal -> True; constants: numpy's tolerance test; symbolic and not identical: by CLOSE_WORLD"""
+    rtol = Fraction(1, 10 ** 5) if rtol is None else Fraction(P(rtol).const_value())
+    atol = Fraction(1, 10 ** 8) if atol is None else Fraction(P(atol).const_value())
     aa = to_obj(a) if isinstance(a, (np.ndarray, list, tuple)) else P(a)
     bb = to_obj(b) if isinstance(b, (np.ndarray, list, tuple)) else P(b)
     if not isinstance(aa, np.ndarray) and not isinstance(bb, np.ndarray):
-        r = bool(aa == bb)
+        r = bool(_close1(aa, bb, rtol, atol))
         LOG.append(("isclose", str(aa)[:60], str(bb)[:60], r))
         return r
     x, y = np.broadcast_arrays(np.asarray(aa, dtype=object), np.asarray(bb, dtype=object))
     res = np.empty(x.shape, dtype=bool)
     for i in np.ndindex(x.shape):
-        res[i] = bool(x[i] == y[i])
+        res[i] = bool(_close1(x[i], y[i], rtol, atol))
     LOG.append(("isclose", "array%s" % (x.shape,), "", int(res.sum())))
     return res
 
 
-def allclose(a, b, **kw):
-    return bool(np.all(isclose(a, b)))
+def allclose(a, b, rtol=None, atol=None, equal_nan=False):
+    return bool(np.all(isclose(a, b, rtol=rtol, atol=atol)))
 
 
 def array_equal(a, b, **kw):
